@@ -215,11 +215,11 @@ class EventSource(VersionedOntologyElement):
                 source_element.attrib['description'],
                 source_element.attrib.get('date-acquired')
             ).set_version(source_element.attrib['version'])
-        except KeyError as e:
+        except (KeyError, ValueError) as e:
             raise EDXMLOntologyValidationError(
                 "Failed to instantiate an event source from the following definition:\n" +
                 etree.tostring(source_element, pretty_print=True, encoding='unicode') +
-                "\nMissing attribute: " + str(e)
+                "\nMissing attribute or illegal value: " + str(e)
             )
 
     def __cmp__(self, other):
